@@ -93,7 +93,18 @@ static inline std::uint64_t getticks() {
   #error "Unsupported architecture"
 #endif
 
+#ifdef XENIUM_VERIF
+// verification hook: lets a test harness supply the value, so that the choice becomes a recorded,
+// replayable decision. Not compiled unless XENIUM_VERIF is defined.
+inline std::uint64_t (*verif_random_hook)() = nullptr;
+#endif
+
 inline std::uint64_t random() {
+#ifdef XENIUM_VERIF
+  if (verif_random_hook != nullptr) {
+    return verif_random_hook();
+  }
+#endif
   return getticks() >> 4;
 }
 } // namespace xenium::utils
